@@ -236,7 +236,7 @@ def check(r) -> list[Fail]:
             try:
                 with warnings.catch_warnings():
                     warnings.simplefilter("ignore")
-                    jobmap(job, src, dst, cache_dir=cache_dir, scratch_dir=scratch, n_workers=4, kwargs={"planroot": planroot, "arg": arg, "broken": tuple(broken), "farg": farg, "earg": earg}, progress=False, log_level="critical")
+                    jobmap(job, src, dst, cache_dir=cache_dir, scratch_dir=scratch, n_workers=4, kwargs={"planroot": planroot, "arg": arg, "broken": tuple(broken), "farg": farg, "earg": earg}, progress=False, log_level="critical", **({"strict_hash": False} if run.get("lax") else {}))
             except Exception as e:
                 s = exc_sig(e)
                 if s is None:
@@ -253,7 +253,8 @@ def check(r) -> list[Fail]:
                 for u in units[k]:
                     c = cache.get(u)
                     hkey = (arg, farg, earg, u in broken)      # everything the input consists of: command line, file contents, environment values
-                    if c is not None and c[0] == hkey and c[1]:
+                    # strict_hash=False (the caller's explicit choice): any successful cached output of the unit is taken, whatever its input was
+                    if c is not None and (c[0] == hkey or run.get("lax")) and c[1]:
                         texts.append(c[2])
                         continue
                     if u in broken:
@@ -326,6 +327,8 @@ def classify(r):
         lab.append("only_file_content_changes_somewhere")
     if len({run.get("earg", 0) for run in r["runs"]}) > 1:
         lab.append("only_env_value_changes_somewhere")
+    if any(run.get("lax") for run in r["runs"]):
+        lab.append("strict_hash_off_somewhere")
     if r["n_foreign"]:
         lab.append("foreign_destination_keys")
     if r["pre_source_keys"]:
@@ -345,7 +348,7 @@ def strat(tier):
     planv = st.sampled_from(["ok", "ok", "fail", "okat2", "okat3", "nofile", "prepfail", "prepfail1"])
     item = st.fixed_dictionaries({"nconf": st.integers(1, 3), "plans": st.lists(planv, min_size=1, max_size=3)})
     ev = st.one_of(st.tuples(st.just("delete"), st.integers(0, 20)).map(list), st.tuples(st.just("pollute"), st.integers(0, 20), st.integers(0, 20)).map(list))
-    run = st.fixed_dictionaries({"arg": st.sampled_from([0, 0, 0, 1, 2]), "farg": st.sampled_from([0, 0, 0, 1]), "earg": st.sampled_from([0, 0, 0, 1]), "cache_events": st.lists(ev, max_size=2), "new_dest": st.sampled_from([False, False, True]),
+    run = st.fixed_dictionaries({"arg": st.sampled_from([0, 0, 0, 1, 2]), "farg": st.sampled_from([0, 0, 0, 1]), "earg": st.sampled_from([0, 0, 0, 1]), "cache_events": st.lists(ev, max_size=2), "new_dest": st.sampled_from([False, False, True]), "lax": st.sampled_from([False, False, False, True]),
                                  "broken": st.one_of(st.just([]), st.just([]), st.lists(st.integers(0, 20), min_size=1, max_size=2))})
     return st.fixed_dictionaries({
         "vec": st.booleans(), "lenient": st.booleans(),
@@ -358,6 +361,6 @@ def strat(tier):
 LEGS = [
     Leg("hist", check, classify, strategy=strat, n={"quick": 32, "thorough": 600}, shards={"quick": 16, "thorough": 16}, timeout={"quick": 900, "thorough": 14000},
         rule="generated histories: 2-4/5 items (single molecules or ensembles of 1-3 conformers) with per-unit plans {ok, fail, ok at 2nd/3rd attempt, omit return file, first (unnamed) command fails always / once}, 2-3/4 jobmap runs whose arguments change the command line, only the content of an input file, or only the value of an environment variable (all must change the hash), "
-             "0-2 pre-populated source keys, 0-2 foreign destination keys, cache events (delete one output, copy another input's output into a slot) between runs, optionally a fresh empty destination with the old cache directory, runs in which the program of some unit cannot be started (the runner dies before writing an output), strict (needs return file) and lenient (stdout only) post-processors, "
+             "0-2 pre-populated source keys, 0-2 foreign destination keys, cache events (delete one output, copy another input's output into a slot) between runs, optionally a fresh empty destination with the old cache directory, runs in which the program of some unit cannot be started (the runner dies before writing an output), strict (needs return file) and lenient (stdout only) post-processors, strict_hash on (default) / off per run, "
              "single and vectorised jobs; every job is a real _molli_run launch; evaluations = jobmap runs; non-trivial = a rerun after a failure, or an argument change with a populated cache"),
 ]
